@@ -329,6 +329,7 @@ func init() {
 		Explanation: "Decides one clause only, 'closed subpaths are joined, not capped' (and its dual: open sub-paths are capped iff stroking): in (*Path).offset the closed flag is set exactly by a Close command, every Capper call is control-dependent on !closed && strokeOpen and placed at the two ends, the Joiner wraps around from the last to the first segment when closed, the closed branch closes both offset curves, and Stroke/Offset pass strokeOpen true/false; plus the angle-unit consistency of the arc rotation passed to ArcTo (E8, whole package). NOT decided: every distance clause (w/2 neighbourhood, miter limit, inner-bend repair, offset direction).",
 		Run: func(c *core.Ctx, r *core.Report) {
 			E11SignFlipPerIteration(c, r)
+			E11ArcJoinDirectionFlags(c, r)
 			E11SplitKeepsEndpoint(c, r)
 			E11ToleranceThreaded(c, r)
 			E11SignedMagnitude(c, r)
